@@ -1,6 +1,7 @@
 import Adsb.Print
 import Adsb.Icao
 import Adsb.Velocity
+import Adsb.TrackerF
 /-! Line-protocol driver: one operation per input line, one canonical line of output. -/
 open Adsb
 
@@ -49,14 +50,61 @@ def runOp (line : String) : String :=
       | _ => "BADOP"
   | _ => "BADOP"
 
-partial def loop (h : IO.FS.Stream) (out : IO.FS.Stream) : IO Unit := do
+structure DState where
+  planes : Airplanes FPos Float := []
+  rx : Float × Float := (0.0, 0.0)
+  range : Float := 500.0
+  now : Nat := 0
+
+/-- decimal text like `-77.25` or `39` as a Float -/
+def parseFloat (s : String) : Option Float :=
+  let neg := s.startsWith "-"
+  let t := if neg then (s.drop 1).toString else s
+  match t.splitOn "." with
+  | [a] => a.toNat?.map (fun n => let x := Float.ofNat n; if neg then -x else x)
+  | [a, b] => match a.toNat?, b.toNat? with
+    | some x, some y =>
+      let v := Float.ofNat x + Float.ofScientific y true b.length
+      some (if neg then -v else v)
+    | _, _ => none
+  | _ => none
+
+def trackOp (st : DState) (args : List String) : DState × String :=
+  match args with
+  | ["reset", la, lo, r] => match parseFloat la, parseFloat lo, parseFloat r with
+    | some a, some b, some c => ({ planes := [], rx := (a, b), range := c, now := st.now }, "OK")
+    | _, _, _ => (st, "BADOP")
+  | ["act", h] => match parseBuf h with
+    | some B => match decode B with
+      | .ok f =>
+        let (s', added) := action (geoF st.rx st.range) true st.now st.planes f.df
+        ({ st with planes := s' }, s!"ADDED {if added then "yes" else "no"} {showMap s'}")
+      | .err e => (st, s!"ERR {e.name}")
+      | .panic p => (st, s!"PANIC {p}")
+    | none => (st, "BADOP")
+  | ["age", ms] => match ms.toNat? with
+    | some d => ({ st with now := st.now + d }, "OK")
+    | none => (st, "BADOP")
+  | ["prune", secs] => match secs.toNat? with
+    | some t => let s' := prune t st.now st.planes; ({ st with planes := s' }, showMap s')
+    | none => (st, "BADOP")
+  | ["dump"] => (st, showMap st.planes)
+  | _ => (st, "BADOP")
+
+partial def loop (h : IO.FS.Stream) (out : IO.FS.Stream) (st : DState) : IO Unit := do
   let line ← h.getLine
   if line.isEmpty then return ()
   let t := line.trimAscii.toString
-  if t.isEmpty || t.startsWith "#" then loop h out else
-  out.putStrLn (runOp t)
-  loop h out
+  if t.isEmpty || t.startsWith "#" then loop h out st else
+  match t.splitOn " " |>.filter (· ≠ "") with
+  | "T" :: args =>
+    let (st', o) := trackOp st args
+    out.putStrLn o
+    loop h out st'
+  | _ =>
+    out.putStrLn (runOp t)
+    loop h out st
 
 def main : IO Unit := do
   let out ← IO.getStdout
-  loop (← IO.getStdin) out
+  loop (← IO.getStdin) out {}
